@@ -311,6 +311,20 @@ static inline Song genSong(Rng &r, const SongOpts &o, UniqueTags *tagsOut = NULL
 
 // Stock songs for checks that only need "a valid file" (C03, C18, C14): kind 0 plain SMF, 1 SMF with loop
 // markers, 2 RMI-wrapped, 3 GMF-style
+// Binds tracks to MIDI devices/ports: every chosen track names its own device at its start (meta FF 09; names are pairwise
+// distinct so the meta events keep unique tags), some switch to a second one halfway. Channel events of a track then go to
+// channel + 16 x (index of its device in order of first use).
+static inline void addDeviceMetas(Song &s, Rng &r)
+{
+    for(size_t tk = 0; tk < s.tracks.size(); ++tk)
+    {
+        STrack &t = s.tracks[tk]; if(t.ev.empty() || !r.chance(0.8)) continue;
+        SEvent e; e.status = 0xFF; e.metaType = 0x09; e.tick = 0; char nm[24]; snprintf(nm, sizeof nm, "dev%zu", tk); e.data.assign(nm, nm + strlen(nm)); e.id = 100000 + (int)tk * 2;
+        t.ev.insert(t.ev.begin(), e);
+        if(t.ev.size() > 6 && r.chance(0.4)) { size_t at = t.ev.size() / 2; SEvent f = e; f.tick = t.ev[at].tick; snprintf(nm, sizeof nm, "dev%zub", tk); f.data.assign(nm, nm + strlen(nm)); f.id = e.id + 1; t.ev.insert(t.ev.begin() + (long)at, f); }
+    }
+}
+
 static inline std::vector<uint8_t> stockSong(uint64_t seed, int kind, bool smallAlphabet = false)
 {
     Rng r(mix64(seed, 0x50A6));
